@@ -14,25 +14,14 @@
 EXTENDS Integers, Sequences, FiniteSets, TLC
 
 CONSTANTS Procs, Want,      \* Want : [Procs -> type id]: what each process asks for
-          Publish           \* "pending" (the repaired protocol) or "direct" (the protocol before the repair)
-
-\* kinds: "struct" (fields), "wrap" (slice / pointer / map around elem), "basic", "unsupported"
-TypeDef == [ R      |-> [kind |-> "struct", fields |-> <<"sliceR", "int">>],      \* recursive through a slice
-             sliceR |-> [kind |-> "wrap", elem |-> "R"],
-             P      |-> [kind |-> "struct", fields |-> <<"int", "ptrP">>],        \* ... a pointer
-             ptrP   |-> [kind |-> "wrap", elem |-> "P"],
-             M      |-> [kind |-> "struct", fields |-> <<"mapM">>],               \* ... a map value
-             mapM   |-> [kind |-> "wrap", elem |-> "M"],
-             A      |-> [kind |-> "struct", fields |-> <<"ptrB", "int">>],        \* mutually recursive pair
-             B      |-> [kind |-> "struct", fields |-> <<"sliceA", "int">>],
-             ptrB   |-> [kind |-> "wrap", elem |-> "B"],
-             sliceA |-> [kind |-> "wrap", elem |-> "A"],
-             N      |-> [kind |-> "struct", fields |-> <<"N2", "int">>],          \* nested, not recursive
-             N2     |-> [kind |-> "struct", fields |-> <<"int">>],
-             F      |-> [kind |-> "struct", fields |-> <<"sliceF", "bad">>],      \* a recursive definition that must fail
-             sliceF |-> [kind |-> "wrap", elem |-> "F"],
-             int    |-> [kind |-> "basic"],
-             bad    |-> [kind |-> "unsupported"] ]
+          Publish,          \* "pending" (the repaired protocol) or "direct" (the protocol before the repair)
+          TypeDef           \* node id -> definition; a node is a (Go type, tag option) pair, the key of the registry
+\* kinds: "basic"       a codec is registered for the node: Load hits at once
+\*        "named"       a named type of a basic kind: looked up under the basic type, then stored under its own key
+\*        "wrap"        pointer / slice around elem; bad = no wrapper exists for this element codec (found when the element's codec is back)
+\*        "map"         key and val requested one after the other (BuildMapCodec)
+\*        "struct"      fields (the encoded ones, in declaration order); dup = two fields share an index (found after the last field)
+\*        "unsupported" no codec can be built: the request fails in its first segment
 TypeIds == DOMAIN TypeDef
 BASIC == -1
 ERR   == -2
@@ -79,13 +68,23 @@ Return(p, v) ==
        ELSE /\ stack' = [stack EXCEPT ![p] = SubSeq(@, 1, Len(@) - 1)]
             /\ UNCHANGED <<phase, result>>
 
+\* a failed request: the error travels up to the outermost caller; the outermost struct build's pending list dies with it
+Fail(p, f) == /\ Return(p, ERR)
+              /\ pending' = [pending EXCEPT ![p] = IF f.ov = <<>> THEN <<>> ELSE @]
+
 \* hook "load": registry.Load; a hit returns, a miss descends by kind
 Load(p) == LET f == Top(p)  d == TypeDef[f.typ]  c == Lookup(p, f.ov, f.typ) IN
   /\ phase[p] = "build" /\ f.pc = "load"
   /\ IF c # 0 THEN Return(p, c) /\ UNCHANGED <<reg, heap, torn, pending>>
      ELSE CASE d.kind = "unsupported" -> Return(p, ERR) /\ UNCHANGED <<reg, heap, torn, pending>>
+            [] d.kind = "named" ->
+                 /\ stack' = SetTop(p, [f EXCEPT !.pc = "store", !.cid = BASIC])
+                 /\ UNCHANGED <<reg, heap, ret, phase, result, torn, pending>>
             [] d.kind = "wrap" ->
                  /\ stack' = Push(p, [f EXCEPT !.pc = "wrap"], Frame(d.elem, f.ov))
+                 /\ UNCHANGED <<reg, heap, ret, phase, result, torn, pending>>
+            [] d.kind = "map" ->
+                 /\ stack' = Push(p, [f EXCEPT !.pc = "mapkey"], Frame(d.key, f.ov))
                  /\ UNCHANGED <<reg, heap, ret, phase, result, torn, pending>>
             [] d.kind = "struct" ->
                  LET cid == Len(heap) + 1 IN
@@ -95,25 +94,38 @@ Load(p) == LET f == Top(p)  d == TypeDef[f.typ]  c == Lookup(p, f.ov, f.typ) IN
 \* hook "wrap": the element's codec is back; build the wrapper around it
 Wrap(p) == LET f == Top(p) IN
   /\ phase[p] = "build" /\ f.pc = "wrap"
-  /\ IF ret[p] = ERR THEN Return(p, ERR) /\ UNCHANGED <<reg, heap, torn, pending>>
+  /\ IF ret[p] = ERR \/ TypeDef[f.typ].bad THEN Return(p, ERR) /\ UNCHANGED <<reg, heap, torn, pending>>
      ELSE LET cid == Len(heap) + 1 IN
           /\ heap' = Append(heap, [kind |-> "wrap", typ |-> f.typ, sub |-> <<ret[p]>>, done |-> TRUE])
+          /\ stack' = SetTop(p, [f EXCEPT !.pc = "store", !.cid = cid])
+          /\ UNCHANGED <<reg, ret, phase, result, torn, pending>>
+\* hooks "mapkey" / "mapval": BuildMapCodec asks for the key codec, then the value codec, then builds the map codec
+MapKey(p) == LET f == Top(p)  d == TypeDef[f.typ] IN
+  /\ phase[p] = "build" /\ f.pc = "mapkey"
+  /\ IF ret[p] = ERR THEN Return(p, ERR) /\ UNCHANGED <<reg, heap, torn, pending>>
+     ELSE /\ stack' = Push(p, [f EXCEPT !.pc = "mapval", !.i = ret[p]], Frame(d.val, f.ov))      \* i holds the key codec meanwhile
+          /\ UNCHANGED <<reg, heap, ret, phase, result, torn, pending>>
+MapVal(p) == LET f == Top(p) IN
+  /\ phase[p] = "build" /\ f.pc = "mapval"
+  /\ IF ret[p] = ERR THEN Return(p, ERR) /\ UNCHANGED <<reg, heap, torn, pending>>
+     ELSE LET cid == Len(heap) + 1 IN
+          /\ heap' = Append(heap, [kind |-> "wrap", typ |-> f.typ, sub |-> <<f.i, ret[p]>>, done |-> TRUE])
           /\ stack' = SetTop(p, [f EXCEPT !.pc = "store", !.cid = cid])
           /\ UNCHANGED <<reg, ret, phase, result, torn, pending>>
 \* hook "field": next field's codec is requested through the overlay registry; after the last field the index table is built
 Field(p) == LET f == Top(p)  d == TypeDef[f.typ] IN
   /\ phase[p] = "build" /\ f.pc = "field"
   /\ IF f.i > Len(d.fields)
-       THEN /\ heap' = [heap EXCEPT ![f.cid].done = TRUE]
-            /\ stack' = SetTop(p, [f EXCEPT !.pc = "flush"])
-            /\ UNCHANGED <<reg, ret, phase, result, torn, pending>>
+       THEN IF d.dup THEN Fail(p, f) /\ UNCHANGED <<reg, heap, torn>>          \* the index table finds two fields with one index
+            ELSE /\ heap' = [heap EXCEPT ![f.cid].done = TRUE]
+                 /\ stack' = SetTop(p, [f EXCEPT !.pc = "flush"])
+                 /\ UNCHANGED <<reg, ret, phase, result, torn, pending>>
        ELSE /\ stack' = Push(p, [f EXCEPT !.pc = "fieldret"], Frame(d.fields[f.i], <<<<f.typ, f.cid>>>> \o f.ov))
             /\ UNCHANGED <<reg, heap, ret, phase, result, torn, pending>>
 \* hook "fieldret"
 FieldRet(p) == LET f == Top(p) IN
   /\ phase[p] = "build" /\ f.pc = "fieldret"
-  /\ IF ret[p] = ERR THEN /\ Return(p, ERR) /\ UNCHANGED <<reg, heap, torn>>
-                          /\ pending' = [pending EXCEPT ![p] = IF f.ov = <<>> THEN <<>> ELSE @]      \* a failed outermost build drops its pending list
+  /\ IF ret[p] = ERR THEN Fail(p, f) /\ UNCHANGED <<reg, heap, torn>>
      ELSE /\ heap' = [heap EXCEPT ![f.cid].sub[f.i] = ret[p]]
           /\ stack' = SetTop(p, [f EXCEPT !.pc = "field", !.i = f.i + 1])
           /\ UNCHANGED <<reg, ret, phase, result, torn, pending>>
@@ -157,9 +169,10 @@ Use(p) ==
   /\ torn' = (torn \/ (result[p] > 0 /\ \E c \in Reach({result[p]}, {}) : Incomplete(c)))
   /\ UNCHANGED <<reg, heap, stack, ret, result, pending>>
 
-Next == \E p \in Procs : Load(p) \/ Wrap(p) \/ Field(p) \/ FieldRet(p) \/ Flush(p) \/ Store(p) \/ Use(p)
+Step(p) == Load(p) \/ Wrap(p) \/ MapKey(p) \/ MapVal(p) \/ Field(p) \/ FieldRet(p) \/ Flush(p) \/ Store(p)
+Next == \E p \in Procs : Step(p) \/ Use(p)
 Spec == Init /\ [][Next]_vars
-FairSpec == Spec /\ \A p \in Procs : WF_vars(Load(p) \/ Wrap(p) \/ Field(p) \/ FieldRet(p) \/ Flush(p) \/ Store(p) \/ Use(p))
+FairSpec == Spec /\ \A p \in Procs : WF_vars(Step(p) \/ Use(p))
 
 \* C07: no process ever uses a struct codec that is not completely built
 NoIncompleteUse == ~torn
@@ -169,7 +182,15 @@ RegistryClosed == \A t \in TypeIds : reg[t] > 0 => \A c \in Reach({reg[t]}, {}) 
 \* with the repaired protocol even that is too weak a statement: nothing incomplete is ever reachable from the registry
 RegistryComplete == Publish = "pending" => \A t \in TypeIds : reg[t] > 0 => \A c \in Reach({reg[t]}, {}) : ~Incomplete(c)
 \* every process gets the result the sequential specification gives: a codec for supported types, an error for F
-SameResult == \A p \in Procs : phase[p] \in {"use", "done"} => (result[p] = ERR) = (Want[p] \in {"F", "sliceF", "bad"})
+RECURSIVE MustFail(_, _)
+MustFail(t, seen) == LET d == TypeDef[t] IN
+  IF t \in seen THEN FALSE
+  ELSE CASE d.kind = "unsupported" -> TRUE
+         [] d.kind = "wrap" -> d.bad \/ MustFail(d.elem, seen \cup {t})
+         [] d.kind = "map" -> MustFail(d.key, seen \cup {t}) \/ MustFail(d.val, seen \cup {t})
+         [] d.kind = "struct" -> d.dup \/ \E j \in 1..Len(d.fields) : MustFail(d.fields[j], seen \cup {t})
+         [] OTHER -> FALSE
+SameResult == \A p \in Procs : phase[p] \in {"use", "done"} => (result[p] = ERR) = MustFail(Want[p], {})
 \* construction terminates (recursive families included)
 Terminates == <>(\A p \in Procs : phase[p] = "done")
 =============================================================================
